@@ -169,9 +169,12 @@ def has_raise(case):
     return any(t['status'] == 'raise' for t in case['tasks'])
 
 
-def run_case(case, st=None):
-    """run under the watchdog; a hang that is not the scheduler's deterministic "no thread enabled" is confirmed by a
-    second run with a 3x watchdog (a loaded machine must not produce an alarm)"""
+def run_case(case, st=None, fast=False):
+    """run under the watchdog; a hang is confirmed by a second run with a 2-3x watchdog (a loaded machine must not
+    produce an alarm).  fast (used while shrinking only): short watchdog, no confirmation -- the shrunk case is
+    confirmed by a normal run afterwards"""
+    if fast:
+        return run_once(case, 0.3)
     obs = run_once(case)
     if obs['err'] and obs['err'].startswith('crash:') and not obs['trace'] and not has_raise(case):
         again = run_once(case)
@@ -523,7 +526,7 @@ def judge(case, obs, a_run, a_c09, st, shrink_left):
         first = failed[0]
 
         def still(c):
-            o = run_case(c)
+            o = run_case(c, fast=True)
             p, _ = monitors_of(c, o)
             return not p.get(first, True)
         small = case
@@ -739,8 +742,11 @@ def run(ctx, scale=1.0):
     for st in common.pmap(eval_batch, batches):
         st.merge_into(ctx)
     # process-mode runs fork real worker processes: not possible inside the (daemonic) pool workers
-    for st in runlib.fork_map(eval_batch, pbatches, procs=4):
-        st.merge_into(ctx)
+    if ctx.violations:
+        ctx.count('process_batches_skipped_after_violation', len(pbatches))
+    else:
+        for st in runlib.fork_map(eval_batch, pbatches, procs=4):
+            st.merge_into(ctx)
     done = sum(v for k, v in ctx.dist.items() if k == 'family:digraph')
     ctx.extra['exhaustive_small_scope']['cases_run'] = done
     ctx.extra['exhaustive_small_scope']['not_run_budget_exhausted'] = ctx.dist.get('not_run_budget_exhausted', 0)
